@@ -627,7 +627,7 @@ def gen_unit_cases(ctx):
     zone = ' '.join([zP('192.0.2.1', 'mail.example.org'), zA('mail.example.org', ['192.0.2.1'])])
     jobs = {}
     # spf_domainspec and spf_makro, exhaustively over a small alphabet
-    n = 5 if quick else 7
+    n = 5 if quick else 6
     toks = exhaustive(ALPHA_DS, n)
     if quick:
         toks = [t for t in toks if len(t) <= 4] + rng.sample([t for t in toks if len(t) == 5], 30000)
@@ -721,6 +721,7 @@ def gen_unit_cases(ctx):
     for t in exhaustive(['a', '.', '-', '1', '_'], 6):
         dv.append('spf_domainvalid %s' % hexs(t))
     for L in (62, 63, 64, 65):
+        dv.append('spf_domainvalid %s' % hexs('a' * L + '.example.com'))
         for tl in (1, 2, 3, 63, 64, 65):
             dv.append('spf_domainvalid %s' % hexs('a.' + 'b' * L + '.' + 'c' * tl))
     for L in (250, 254, 255, 256, 257):
@@ -777,7 +778,7 @@ def run(ctx):
         zone_corp = [c for c in corp if c.startswith(('spf ', 'spfr '))]
         unit_corp = [c for c in corp if not c.startswith(('spf ', 'spfr '))]
         ctx.count('zone:corpus', len(zone_corp))
-        nz = 25000 if quick else 250000
+        nz = 25000 if quick else 150000
         cases = list(zone_corp)
         cases += [gen_random_zone_case(rng, ctx) for _ in range(nz)]
         cases += [gen_chain_case(rng, ctx) for _ in range(nz // 2)]
